@@ -106,3 +106,9 @@ PROP_IFACE_ENS = [
     ("status", "result == PROP_INCONSISTENCY or result == PROP_CONSISTENCY or result == PROP_ENTAILMENT"),
     ("P1", "implies(result != PROP_INCONSISTENCY, forall(k, 0, n, old(domains)[k, MIN] <= domains[k, MIN] and domains[k, MIN] <= domains[k, MAX] and domains[k, MAX] <= old(domains)[k, MAX]))"),
 ]
+
+
+# ------------------------------------------------------------------ semantic layer
+V_DEF = "forall(p, 0, P, forall(k, 0, var_bounds[p, RG_END] - var_bounds[p, RG_START], tv(p)[k] == sigma[props_dom_indices[var_bounds[p, RG_START] + k]] + props_dom_offsets[var_bounds[p, RG_START] + k, 0]))"
+PROP_IFACE_SOL = ("P2.sol", "implies(ufun_bool('Rel', pidx, tvec) and inbox(tvec, old(domains), n), result != PROP_INCONSISTENCY and inbox(tvec, domains, n))")
+CA_PRESERVE = ("C02.preserve", f"implies(sol() and in_box({SS0}, {TOP}), result != PROBLEM_INCONSISTENT and in_box({SS}, {TOP}))")
